@@ -104,6 +104,11 @@ def failing_blocks(k):
               ['Traceback (most recent call last):', 'KeyError: whatever the message'], 2, 'GotWantException', 'gotwant'))
     B.append(('traceback_wrong_type_ignore_detail_inline', ['>>> boom(%d)  # xdoctest: +IGNORE_EXCEPTION_DETAIL' % k],
               ['Traceback (most recent call last):', 'pkg.KeyError: whatever'], 1, 'GotWantException', 'gotwant'))
+    # ... also when the raised exception has no message at all (its final line holds no colon)
+    B.append(('traceback_wrong_type_no_message_ignore_detail', ['>>> # xdoctest: +IGNORE_EXCEPTION_DETAIL', '>>> t(%d)' % k, '>>> raise ValueError'],
+              ['Traceback (most recent call last):', 'KeyError: whatever'], 3, 'GotWantException', 'gotwant'))
+    B.append(('traceback_wrong_type_no_message_either_inline', ['>>> t(%d)' % k, '>>> raise ValueError  # xdoctest: +IGNORE_EXCEPTION_DETAIL'],
+              ['Traceback (most recent call last):', 'KeyError'], 2, 'GotWantException', 'gotwant'))
     return B
 
 
